@@ -319,6 +319,28 @@ pub fn fat_edge_inputs(thorough: bool) -> Vec<Input> {
     v
 }
 
+/// Probes for the ring slots shared by the oldest dictionary bytes and the newest look-ahead bytes:
+/// filler (bytes >= 0x80), "Seedmark" at P, "seedmark" `gap` bytes later (the first bytes differ only
+/// in bits the 3-byte hash drops, so the old position is a candidate), and the current first byte
+/// again k bytes after it (where the look-ahead currently ends). gap sweeps the neighbourhood of the
+/// largest match distance (32 768 - 258 +- 5), k the neighbourhood of the look-ahead size: a match
+/// finder that reads a slot the look-ahead has already overwritten takes "Seedmark" for "seedmark".
+pub fn window_edge_stale_slot_inputs() -> Vec<Input> {
+    let mut v = vec![];
+    for gap in 32_505usize..=32_515 {
+        for k in [256usize, 257, 258] {
+            let p = 1000;
+            let mut l = crate::util::Lcg(0x57a1e ^ crate::util::seed());
+            let mut d: Vec<u8> = (0..p + gap + 700).map(|_| 0x80 | (l.byte() & 0x7f)).collect();
+            d[p..p + 8].copy_from_slice(b"Seedmark");
+            d[p + gap..p + gap + 8].copy_from_slice(b"seedmark");
+            d[p + gap + k] = b's';
+            v.push(Input { name: format!("stale-slot:gap{}k{}", gap, k), data: d });
+        }
+    }
+    v
+}
+
 /// Inputs that make the crate's *own* encoder emit distance codes of every length 1..=15:
 /// trigram-free filler with 3-byte repeats planted at one distance per distance class 2..=16 in
 /// Fibonacci proportions (987, 610 ... 2, 1), and one 200-byte repeat from more than 16 KiB back
